@@ -65,9 +65,48 @@ def truth_table_form(cond, widths):
     return ["tt", v, widths[v], sum(tt), hashlib.sha1(tt).hexdigest()[:12]]
 
 
+WIDTH_OF = {"u8": 8, "u16": 16, "u32": 32, "u64": 64, "usize": 64}
+
+
+def simplify_len(seq):
+    """the length of a slice taken with count n is n (`data.len() as u16` after `take(len)` is `len` again), and a
+    widening cast of a wire integer is that integer: rewrite both everywhere, so that a length passed on as
+    `slice.len()` and one passed on as the decoded length field compare equal"""
+    counts, widths = {}, {}
+    def note(st, p):
+        if st[0] == "bytes" and st[2] != ["remaining"]:
+            counts[st[1]] = st[2]
+        elif st[0] == "u":
+            widths[st[1]] = st[2]
+    walk_steps(seq, note)
+
+    def rw(x):
+        if isinstance(x, dict):
+            return {k: rw(v) for k, v in x.items()}
+        if not isinstance(x, list):
+            return x
+        x = [rw(y) for y in x]
+        if len(x) == 2 and x[0] == "len" and isinstance(x[1], list) and len(x[1]) == 2 and x[1][0] == "v" and x[1][1] in counts:
+            return rw(counts[x[1][1]])
+        if len(x) == 3 and x[0] == "cast" and isinstance(x[2], list) and len(x[2]) == 2 and x[2][0] == "v" and widths.get(x[2][1], 99) <= WIDTH_OF.get(x[1], 0):
+            return x[2]
+        if x and x[0] in ("op", "not", "fld", "cast") and isinstance(x[0], str):
+            try:
+                return canon(x)
+            except Exception:
+                return x
+        return x
+    if not counts:
+        return seq
+    new = rw(seq)
+    seq["steps"], seq["ret"] = new["steps"], new["ret"]
+    return seq
+
+
 def semantic_conds(seq):
     """replace every condition over a single 8/16-bit wire integer by its truth table (count + hash):
     two syntactically different but equivalent predicates then compare equal."""
+    simplify_len(seq)
     widths = {}
     walk_steps(seq, lambda st, p: widths.__setitem__(st[1], st[2]) if st[0] == "u" else None)
 
